@@ -87,3 +87,285 @@ def get_roles(ctx):
     if 'roles' not in ctx.cache:
         ctx.cache['roles'] = Roles(ctx)
     return ctx.cache['roles']
+
+
+def upsert_fields(ctx):
+    """Canonical role names of the fields of WriteOp::Upsert, by type and declaration order (rename-independent)."""
+    adt = ctx.prog.adts.get('common::concurrent::WriteOp')
+    fields = []
+    if adt:
+        u32_seen = 0
+        for v in adt['variants']:
+            if v['name'] != 'Upsert':
+                continue
+            for f in v['fields']:
+                ty = f['ty']['s']
+                if 'KeyHash' in ty:
+                    fields.append('key_hash')
+                elif 'ValueEntry' in ty:
+                    fields.append('value_entry')
+                elif ty == 'u32':
+                    fields.append('old_weight' if u32_seen == 0 else 'new_weight')
+                    u32_seen += 1
+                else:
+                    fields.append(f['name'])
+    return fields
+
+
+def upsert_role(ctx):
+    """The function that applies a WriteOp::Upsert, found through the write-op consumer: the in-crate callee that receives the
+    payload fields of the Upsert variant.  Returns {'nid', 'key', 'entry', 'old', 'new'} (1-based parameter indices) or None.
+    Independent of function and parameter names (only the field names of WriteOp::Upsert are used)."""
+    if 'upsert_role' in ctx.cache:
+        return ctx.cache['upsert_role']
+    prog = ctx.prog
+    res = None
+    adt = prog.adts.get('common::concurrent::WriteOp')
+    if adt:
+        fields = []
+        u32_seen = 0
+        for v in adt['variants']:
+            if v['name'] != 'Upsert':
+                continue
+            for f in v['fields']:
+                ty = f['ty']['s']
+                # by type, so that renaming the fields does not matter: key, entry, then the two weights in declaration order (old, new)
+                if 'KeyHash' in ty:
+                    fields.append('key_hash')
+                elif 'ValueEntry' in ty:
+                    fields.append('value_entry')
+                elif ty == 'u32':
+                    fields.append('old_weight' if u32_seen == 0 else 'new_weight')
+                    u32_seen += 1
+                else:
+                    fields.append(f['name'])
+        R = get_roles(ctx)
+        for nid, b in prog.bodies.items():
+            if b.kind == 'closure' or not nid.startswith('sync::'):
+                continue
+            is_cons = any(prog.call_targets(b, t)[1] == 'crossbeam_channel::Receiver::try_recv' and 'WriteOp' in t.get('self_ty', {}).get('s', '') for _, t in b.calls())
+            if not is_cons:
+                continue
+            sx = ctx.symex(inline_depth=0, loop_visits=2, inline_pred=lambda n_, bb, d: False)
+            for p in sx.run(nid):
+                for e in p.events:
+                    if e[0] != 'call' or e[1] not in prog.bodies:
+                        continue
+                    pos = {}
+                    for i, a in enumerate(e[2]):
+                        if isinstance(a, tuple) and a and a[0] == 'payload' and a[2] == 'Upsert' and isinstance(a[3], int) and a[3] < len(fields):
+                            pos[fields[a[3]]] = i + 1
+                    if {'old_weight', 'new_weight', 'value_entry'} <= set(pos):
+                        res = {'nid': e[1], 'key': pos.get('key_hash'), 'entry': pos['value_entry'], 'old': pos['old_weight'], 'new': pos['new_weight'], 'consumer': nid}
+                if res:
+                    break
+            if res:
+                break
+    ctx.cache['upsert_role'] = res
+    return res
+
+
+def validation_role(ctx):
+    """The function the builders call with (time_to_live, time_to_idle) before constructing: found through the call sites."""
+    if 'validation_role' in ctx.cache:
+        return ctx.cache['validation_role']
+    prog = ctx.prog
+    found = set()
+    for nid, b in prog.bodies.items():
+        if not nid.startswith(('sync::builder::', 'unsync::builder::')) or b.kind == 'closure':
+            continue
+        for bi, t in b.calls():
+            tg, ext, _ = prog.call_targets(b, t)
+            if len(tg) != 1 or len(t['args']) != 2:
+                continue
+            from .kernel import place_fields, op_place
+            names = []
+            for a in t['args']:
+                cur = a
+                nm = None
+                for _ in range(6):
+                    pl = op_place(cur)
+                    if pl is None:
+                        break
+                    fs = [f[1] for f in place_fields(pl)]
+                    if fs:
+                        nm = fs[-1]
+                        break
+                    ds = b.defs().get(pl['l'], [])
+                    if len(ds) == 1 and ds[0][0] == 'assign' and ds[0][3]['rv']['rv'] in ('use', 'cast'):
+                        cur = ds[0][3]['rv']['op']
+                    else:
+                        break
+                names.append(nm)
+            if names == ['time_to_live', 'time_to_idle'] and prog.bodies[tg[0]].locals[0]['ty']['s'] == '()':
+                found.add(tg[0])
+    ctx.cache['validation_role'] = sorted(found)
+    return ctx.cache['validation_role']
+
+
+# ------------------------------------------------------------------------------------------------
+# Internal helpers found by what they do; the name they have today is only the fallback.
+
+_FALLBACK = {
+    'sync.get_lookup': 'sync::base_cache::BaseCache::get_with_hash',
+    'sync.contains_lookup': 'sync::base_cache::BaseCache::contains_key',
+    'sync.do_insert': 'sync::base_cache::BaseCache::do_insert_with_hash',
+    'sync.upsert': 'sync::base_cache::Inner::handle_upsert',
+    'sync.admit': 'sync::base_cache::Inner::admit',
+    'unsync.admit': 'unsync::cache::Cache::admit',
+    'unsync.insert_handler': 'unsync::cache::Cache::handle_insert',
+    'unsync.update_handler': 'unsync::cache::Cache::handle_update',
+    'unsync.evict_lru': 'unsync::cache::Cache::evict_lru_entries',
+    'sync.evict_lru': 'sync::base_cache::Inner::evict_lru_entries',
+    'unsync.evict_expired': 'unsync::cache::Cache::evict_expired',
+    'sync.evict_expired': 'sync::base_cache::Inner::evict_expired',
+    'unsync.weights_to_evict': 'unsync::cache::Cache::weights_to_evict',
+    'sync.weights_to_evict': 'sync::base_cache::Inner::weights_to_evict',
+    'unsync.has_capacity': 'unsync::cache::Cache::has_enough_capacity',
+    'sync.has_capacity': 'sync::base_cache::Inner::has_enough_capacity',
+    'unsync.scan_wo': 'unsync::cache::Cache::remove_expired_wo',
+    'unsync.scan_ao': 'unsync::cache::Cache::remove_expired_ao',
+    'sync.scan_wo': 'sync::base_cache::Inner::remove_expired_wo',
+    'sync.scan_ao': 'sync::base_cache::Inner::remove_expired_ao',
+}
+
+
+def _derive(ctx, key):
+    prog, eff = ctx.prog, ctx.eff
+    R = get_roles(ctx)
+    kind, what = key.split('.')
+    pre = kind + '::'
+    fns = [n for n, b in prog.bodies.items() if n.startswith(pre) and b.kind != 'closure']
+
+    def root_ext(n):
+        s = set(R.ext_calls.get(n, ()))
+        for c in prog.closures_of.get(n, []):
+            s |= R.ext_calls.get(c, set())
+        return s
+
+    def reaches_ext(n, name):
+        return any(name in R.ext_calls.get(x, ()) for x in prog.reachable_from([n]))
+    if what == 'upsert':
+        ur = upsert_role(ctx)
+        return [ur['nid']] if ur else []
+    if what == 'admit':
+        nexts = {n for n in prog.bodies if ('read', DEQNODE, 'next') in eff.direct.get(n, ()) and n.startswith('common::deque::DeqNode')}
+        freq = {n for n in prog.bodies if n.startswith('common::frequency_sketch::') and ('read', SKETCH, 'table') in eff.direct.get(n, ()) and n not in R.sketch_write}
+        return [n for n in fns if prog.bodies[n].loops() and (prog.callees(n) & nexts) and (prog.reachable_from([n]) & freq)]
+    if what == 'insert_handler':
+        adm = set(named_all(ctx, 'unsync.admit'))
+        return [n for n in prog.callees('unsync::cache::Cache::insert') if n in fns and (prog.callees(n) & adm)]
+    if what == 'update_handler':
+        out = []
+        for n in prog.callees('unsync::cache::Cache::insert'):
+            if n in fns:
+                b = prog.bodies[n]
+                if any('ValueEntry' in l['ty']['s'] and not l['ty']['s'].startswith('&') for l in b.locals[1:b.argc + 1]) and not (prog.reachable_from([n]) & R.push):
+                    out.append(n)
+        return out
+    if what in ('scan_wo', 'scan_ao'):
+        rm = HASHMAP_REMOVE - {'std::collections::HashMap::clear'} if kind == 'unsync' else DASHMAP_REMOVE
+        tr = 'unsync::AccessTime::' if kind == 'unsync' else 'common::concurrent::AccessTime::'
+        want, other = ('last_modified', 'last_accessed') if what == 'scan_wo' else ('last_accessed', 'last_modified')
+        out = []
+        for n in fns:
+            b = prog.bodies[n]
+            if not b.loops() or b.is_pub:
+                continue
+            reach = prog.reachable_from([n])
+            calls = set()
+            for x in reach:
+                for bi, t in prog.bodies[x].calls():
+                    c = norm(t.get('callee') or '')
+                    if c.startswith(tr):
+                        calls.add(c[len(tr):])
+            has_rm = any(R.ext_calls.get(x, set()) & rm for x in [n] + prog.closures_of.get(n, []))
+            if has_rm and want in calls and other not in calls and reaches_ext(n, 'std::time::Instant::checked_add'):
+                out.append(n)
+        return out
+    if what in ('evict_lru', 'evict_expired'):
+        rm = HASHMAP_REMOVE - {'std::collections::HashMap::clear'} if kind == 'unsync' else DASHMAP_REMOVE
+        ur = upsert_role(ctx) if kind == 'sync' else None
+        loops_rm = []
+        for n in fns:
+            b = prog.bodies[n]
+            if not b.loops() or (ur and ur['nid'] == n) or b.is_pub:
+                continue
+            in_loop = False
+            for h, body, _ in b.loops():
+                for bi in body:
+                    t = b.blocks[bi]['term']
+                    if t['t'] == 'call' and prog.call_targets(b, t)[1] in rm:
+                        in_loop = True
+            if in_loop:
+                loops_rm.append(n)
+        expiry_loops = [n for n in loops_rm if reaches_ext(n, 'std::time::Instant::checked_add')]
+        if what == 'evict_lru':
+            return [n for n in loops_rm if n not in expiry_loops and not (prog.reachable_from([n]) & R.push)]
+        callers = []
+        for n in fns:
+            if n in loops_rm or prog.bodies[n].is_pub:
+                continue
+            cs = prog.callees(n)
+            for c in list(cs):
+                if c in prog.bodies and prog.bodies[c].kind == 'closure':
+                    cs = cs | prog.callees(c)
+            if cs & set(expiry_loops) and not (R.ext_calls[n] & rm):
+                # the step that dispatches the scans (not a wrapper around it)
+                if len(cs & set(expiry_loops)) >= 1 and not any(n in prog.callees(m2) for m2 in fns if m2 != n and (prog.callees(m2) & set(expiry_loops))):
+                    callers.append(n)
+        return callers
+    if what in ('weights_to_evict', 'has_capacity'):
+        out = []
+        adts = ('unsync::cache::Cache', 'sync::base_cache::Inner')
+        for n in fns:
+            b = prog.bodies[n]
+            rt = b.locals[0]['ty']['s']
+            if rt != ('u64' if what == 'weights_to_evict' else 'bool') or len(b.blocks) > 25 or b.loops():
+                continue
+            reads = set()
+            for x in [n] + prog.closures_of.get(n, []):
+                reads |= {e[2] for e in eff.direct.get(x, ()) if e[0] == 'read'}
+            if 'max_capacity' not in reads:
+                continue
+            if what == 'weights_to_evict' and 'weighted_size' not in reads:
+                continue
+            if what == 'weights_to_evict':
+                if any(str(e).endswith('saturating_sub') for x in [n] + prog.closures_of.get(n, []) for e in R.ext_calls.get(x, ())):
+                    out.append(n)
+            else:
+                if 'frequency_sketch_enabled' not in reads:
+                    out.append(n)
+        return out
+    if key == 'sync.do_insert':
+        return sorted({prog.bodies[n].root or n for n in prog.bodies if n.startswith('sync::') and 'dashmap::DashMap::entry' in R.ext_calls.get(n, ())})
+    if key == 'sync.get_lookup':
+        return sorted({prog.bodies[n].root or n for n in eff.who_has(('construct', 'common::concurrent::ReadOp', 'Hit'))})
+    if key == 'sync.contains_lookup':
+        pub = 'sync::cache::Cache::contains_key'
+        if pub not in prog.bodies:
+            return []
+        reach = prog.reachable_from([pub])
+        c = [n for n in reach if n in fns and reaches_ext(n, 'dashmap::DashMap::get') and reaches_ext(n, 'std::time::Instant::checked_add') and n != pub]
+        # the outermost such function below the public wrapper
+        return [n for n in c if not any(n in prog.reachable_from([m2]) and m2 != n for m2 in c)]
+    return []
+
+
+def named_all(ctx, key):
+    ck = ('named', key)
+    if ck not in ctx.cache:
+        try:
+            ctx.cache[ck] = sorted(set(_derive(ctx, key)))
+        except Exception:
+            ctx.cache[ck] = []
+    return ctx.cache[ck]
+
+
+def named(ctx, key):
+    """Body id of the function that plays role `key` today: derived from behaviour when exactly one function qualifies, else
+    the historical name (and if that does not exist either, the caller fails closed with `anchor missing`)."""
+    c = named_all(ctx, key)
+    if len(c) == 1:
+        return c[0]
+    return _FALLBACK[key]
